@@ -54,6 +54,8 @@ type world struct {
 	profile  types.TimeProfile
 	task     types.Task
 	readers  map[uint8]bool
+	codes    [8]uint32           // passcodes are passed as codes[0:3]: a slice with spare capacity
+	formats  [4]types.CardFormat // card formats are passed as formats[0:1]
 	devClone *uhppote.Device
 	flags    map[string]bool
 	viol     func(key, what string)
@@ -84,6 +86,8 @@ func newWorld(viol func(string, string)) *world {
 		Segments: types.Segments{1: {Start: types.NewHHmm(8, 30), End: types.NewHHmm(9, 45)}, 2: {}, 3: {Start: types.NewHHmm(14, 0), End: types.NewHHmm(17, 0)}}}
 	w.task = types.Task{Task: types.EnableMoreCards, Door: 3, From: types.ToDate(2024, 1, 1), To: types.ToDate(2024, 12, 31), Weekdays: types.Weekdays{time.Tuesday: true}, Start: types.NewHHmm(7, 15), Cards: 2}
 	w.readers = map[uint8]bool{1: true, 3: true}
+	w.codes = [8]uint32{12345, 1000000, 54321, 111111, 222222, 333333, 444444, 555555}
+	w.formats = [4]types.CardFormat{types.WiegandAny, types.Wiegand26, types.Wiegand26, types.WiegandAny}
 	return w
 }
 
@@ -146,14 +150,17 @@ func (w *world) call(name string, serial uint32, fn func() (any, error)) {
 		return
 	}
 	before := len(w.fake.Calls)
-	argsBefore := render(w.card) + render(w.profile) + render(w.task) + render(w.readers)
+	args := func() string {
+		return render(w.card) + render(w.profile) + render(w.task) + render(w.readers) + fmt.Sprint(w.codes, w.formats)
+	}
+	argsBefore := args()
 	v, err := fn()
 	if err != nil {
 		w.viol("call-failed/"+name, fmt.Sprintf("%s failed: %v", name, err))
 		return
 	}
-	if render(w.card)+render(w.profile)+render(w.task)+render(w.readers) != argsBefore {
-		w.viol("argument-modified/"+name, name+" modified one of its card/profile/task/map arguments")
+	if after := args(); after != argsBefore {
+		w.viol("argument-modified/"+name, fmt.Sprintf("%s modified one of its card/profile/task/map/slice arguments (or the storage behind a slice argument): before %s, after %s", name, argsBefore, after))
 	}
 	calls := w.fake.Calls[before:]
 	if len(calls) != 1 {
@@ -183,6 +190,7 @@ var events = []string{
 	"mutate-caller-address", "mutate-caller-protocol", "mutate-caller-id", "mutate-caller-doors", "truncate-caller-slice",
 	"device-list", "mutate-device-list",
 	"call-GetDevice", "call-GetCards-other", "call-PutCard", "call-SetTimeProfile", "call-AddTask", "call-ActivateKeypads", "call-GetStatus", "call-GetTimeProfile", "call-GetCardByID", "call-GetListener",
+	"call-SetDoorPasscodes", "call-PutCard-formats",
 	"scribble-buffers", "mutate-returned", "clone-card-mutate-clone", "clone-card-mutate-original", "clone-device-mutate",
 }
 
@@ -264,6 +272,10 @@ func (w *world) apply(ev string) {
 		w.call("GetCards", other, func() (any, error) { _, err := w.u.GetCards(other); return nil, err })
 	case "call-PutCard":
 		w.call("PutCard", target, func() (any, error) { _, err := w.u.PutCard(target, w.card); return nil, err })
+	case "call-SetDoorPasscodes":
+		w.call("SetDoorPasscodes", target, func() (any, error) { _, err := w.u.SetDoorPasscodes(target, 3, w.codes[0:3]...); return nil, err })
+	case "call-PutCard-formats":
+		w.call("PutCard", target, func() (any, error) { _, err := w.u.PutCard(target, w.card, w.formats[0:1]...); return nil, err })
 	case "call-SetTimeProfile":
 		w.call("SetTimeProfile", target, func() (any, error) { _, err := w.u.SetTimeProfile(target, w.profile); return nil, err })
 	case "call-AddTask":
